@@ -207,6 +207,7 @@ def step (st : WSt) (ws : List String) : Option (WSt × String) :=
           | "leave", "me" :: _ => some (c0.opLeaveMe a (kvGet m "unsub" = "1"))
           | "pub", "me" :: _ => some (c0.opPubMe a)
           | "get", "me" :: "desc" :: _ => some (c0.opGetMeDesc a)
+          | "get", "me" :: "sub" :: _ => some (c0.opGetMeSub a)
           | "newgrp", _ =>
             let o : NewGrpOpts := { auth := optStr (kvGet m "auth"), anon := optStr (kvGet m "anon"), want := kvGet m "want", priv := privArg (kvGet m "priv"), pub := privArg (kvGet m "pub"), chan := kvGet m "chan" = "1" }
             let tagArg := kvGet m "tags"
